@@ -16,7 +16,8 @@ def pruneDep (d : BDep) : BDep := { d with type := .none }
 def depCodeTargets (deps : List BDep) : List Spec :=
   deps.filterMap fun d => d.code.okSpec?
 
-/-- the source map is a code-side dependency: a code-only build loads it too (repair of F16) -/
+/-- the source map is a code-side dependency: a code-only build loads it too (repair of F16;
+whether `prune_types` follows it is the regenerated table `pruneFollowsSourceMap`) -/
 def smTarget : Option Res → List Spec
   | some (.ok s _) => [s]
   | _ => []
@@ -28,7 +29,7 @@ def pruneSlot : BSlot → BSlot
   | sl => sl
 
 def slotTargets : BSlot → List Spec
-  | .module (.js _ deps _ sm) => smTarget sm ++ depCodeTargets deps
+  | .module (.js _ deps _ sm) => (if pruneFollowsSourceMap then smTarget sm else []) ++ depCodeTargets deps
   | .module (.wasm deps) => depCodeTargets deps
   | _ => []
 
